@@ -1309,6 +1309,21 @@ class Unit:
                                    sha256=hashlib.sha256(src[start:end].encode()).hexdigest()))
         self._emit(shim)
 
+    def fn_guard(self, file, name, expect_norm, within=None, nth=0, why=''):
+        """A tonic function that is represented by an assumed shim (its body is out of reach): the extractor checks that its
+        source text is still the text the shim was written for.  A changed body makes the unit UNDECIDED (exit 2): the shim may
+        no longer describe it - never an alarm, never a silent pass."""
+        src = read_src(file)
+        loc = find_fn(src, name, nth, within)
+        code = code_mask(src)
+        a, b = loc['sig_start'], loc['body_end']
+        txt = re.sub(r'//[^\n]*', '', src[a:b])      # literals kept (the mask would blank them), line comments dropped
+        if norm_ws(txt).replace(' ', '') != norm_ws(expect_norm).replace(' ', ''):
+            raise Infra('fn %s (%s) is represented by an assumed shim and its text changed: %r' % (name, file, norm_ws(txt)[:200]))
+        self.functions.append(dict(item='fn %s (text guard: represented by an assumed shim%s)' % (name, (': ' + why) if why else ''), file=file,
+                                   lines=[src.count('\n', 0, a) + 1, src.count('\n', 0, b) + 1],
+                                   sha256=hashlib.sha256(src[a:b].encode()).hexdigest()))
+
     def close(self, text='}'):
         self._emit(text)
         self._open_header = None
